@@ -2,8 +2,8 @@
    parse_equation (fsic/parser.py:227-271, 456-673) as they are in the repaired tree:
    * any failure of template.format → ParserError (6fcad37);
    * a left-hand side with no ENDOGENOUS term → ParserError, tested after the keyword check (2ef3e7c).
-   Still mirrored as it is: `equation.split('=', maxsplit=1)` on a statement without '=' raises
-   ValueError (reachable: a fence inside a bracketed statement, see ParseEqExamples).
+   * a statement without '=' (reachable: a fence inside a bracketed statement) → ParserError (1c7ed70; it used to be
+     the ValueError of `equation.split('=', maxsplit=1)`).
    Definitions only; no fuel. *)
 From Coq Require Import String Ascii List Bool Arith ZArith DecimalString.
 Import ListNotations.
@@ -122,7 +122,7 @@ Definition has_type (ty : ptype) (l : list term) : bool := existsb (fun t => typ
 
 Definition parse_equation_terms (equation : string) : outcome (list term) :=
   match find_any "=" equation with
-  | None => Raise ValueError                      (* left, right = equation.split('=', maxsplit=1) *)
+  | None => Raise ParserError                     (* 1c7ed70: `if '=' not in equation: raise ParserError` (was ValueError from the unpacking of split('=')) *)
   | Some (lhs_text, rhs_text) =>
     match parse_terms lhs_text with
     | Raise e => Raise e
